@@ -32,6 +32,16 @@ INPUTS = {
     'bool': '(declare-const p Bool)\n(declare-const q Bool)\n'
             '(assert (and p (or q (not p)) (=> p q) (xor p q true)))\n'
             '(assert (let ((r (and p q))) (or r (not r))))\n(check-sat)\n',
+    # several equally good replacements: which one wins must not depend on
+    # hash seeds (datatype constants) ...
+    'dt': '(declare-datatypes ((Color 0)) (((red) (green) (blue) (cyan) '
+          '(magenta) (yellow))))\n(declare-const c Color)\n'
+          '(declare-const d Color)\n(assert (distinct c d))\n(check-sat)\n',
+    # ... nor on timing (order-sensitive command: which assertions survive
+    # depends on the order in which they are removed)
+    'order': '(set-logic QF_LIA)\n' + ''.join(
+        f'(declare-const x{i} Int)\n' for i in range(8)) + ''.join(
+        f'(assert (> x{i} {i}))\n' for i in range(8)) + '(check-sat)\n',
 }
 
 CMD = r'''#!%(py)s
@@ -42,8 +52,8 @@ toks = re.findall(r'[()]|[^\s()]+', text)
 ok = %(pred)s
 delay = float(os.environ.get('C18_DELAY', '0'))
 if delay:
-    # timing perturbation that depends on the content, not on the run
-    time.sleep(delay * (int(hashlib.md5(data).hexdigest(), 16) %% 3))
+    # timing perturbation: slows every test of this run down
+    time.sleep(delay)
 with open(%(log)r, 'a') as f:
     f.write(hashlib.sha256(' '.join(toks).encode()).hexdigest()[:16] + (' ok' if ok else ' no') + '\n')
 if ok:
@@ -56,6 +66,10 @@ PREDS = {
     'vars': "toks.count('assert') >= 1 and 'aa' in text",
     'bv': "'v' in toks and toks.count('(') >= 4",
     'bool': "'p' in toks and 'assert' in toks",
+    'dt': "'declare-datatypes' in toks and 'distinct' in toks and "
+          "'assert' in toks",
+    'order': "len(re.findall(r'\\(assert \\(> x[0-9]+ [0-9]+\\)\\)', "
+             "text)) >= 4",
 }
 
 
@@ -104,7 +118,7 @@ def main():
     for iname in INPUTS:
         for strategy in ('ddmin', 'hierarchical', 'hybrid'):
             for seed in range(nseeds):
-                for delay in ((0, 0.01) if seed < 2 else (0, )):
+                for delay in ((0, 0.003, 0.012) if seed < 1 else (0, )):
                     jobs.append((iname, strategy, seed, delay))
     groups = {}
     with concurrent.futures.ProcessPoolExecutor(12) as ex:
